@@ -50,12 +50,16 @@ def main():
     ap.add_argument("--digests")
     ap.add_argument("--indices", default="0")
     ap.add_argument("--runs", type=int, default=None)
+    ap.add_argument("--c09-worker", action="store_true")
     args = ap.parse_args()
 
     seed = args.seed
     if seed is None:
         seed = int(os.environ.get("VERIF_SEED", "20260922" if args.tier == "quick" else "77001"))
 
+    if args.c09_worker:
+        from props import c09
+        return c09.worker_main()
     if args.replay:
         return runner.replay(args.replay)
     if args.digests:
